@@ -528,7 +528,7 @@ static void part_b(const char *path)
             case 24: CALL("Vaddtagref", 1, Vaddtagref(hk_chance(70) ? vg_r : newvg, 1000, 1)); break;
             case 25: CALL("Vinsert", 1, Vinsert(vg_r, vs_r)); break;
             case 26: CALL("Vdeletetagref", 1, Vdeletetagref(vg_r, 1000, 1)); break;
-            case 27: CALL("Vsetattr", 1, Vsetattr(vg_r, "att", DFNT_INT32, 1, ibuf)); break;
+            case 27: CALL("Vsetattr", 1, Vsetattr(vg_r, hk_chance(50) ? "att" : "vgatt" /* exists in prep_rich files, same type and count */, DFNT_INT32, 1, ibuf)); break;
             case 28: CALL("Vdelete", 1, Vdelete(fid, vgref > 0 ? vgref : 1)); break;
             case 29: { if (vg_r != FAIL) CALL("Vdetach", 0, Vdetach(vg_r)); vg_r = vgref > 0 ? (int32)CALL("Vattach", 0, Vattach(fid, vgref, "r")) : FAIL; } break;
             case 30: { int32 v = (int32)CALL("VSattach(-1,w)", 1, VSattach(fid, -1, "w")); if (v != FAIL) newvs = v; } break;
@@ -536,7 +536,7 @@ static void part_b(const char *path)
             case 32: { if (vs_r != FAIL) { VSsetfields(vs_r, "a,b"); CALL("VSwrite", 1, VSwrite(vs_r, buf, 1, FULL_INTERLACE)); } } break;
             case 33: CALL("VSsetname", 1, VSsetname(vs_r, "renamed")); break;
             case 34: CALL("VSsetclass", 1, VSsetclass(vs_r, "recls")); break;
-            case 35: CALL("VSsetattr", 1, VSsetattr(vs_r, _HDF_VDATA, "att", DFNT_INT32, 1, ibuf)); break;
+            case 35: CALL("VSsetattr", 1, VSsetattr(vs_r, _HDF_VDATA, hk_chance(50) ? "att" : "vsatt" /* exists, same type and count */, DFNT_INT32, 1, ibuf)); break;
             /* VSfdefine only enters a name in the handle's table of user-defined symbols (vs->usym); that table is never stored,
                only a later VSsetfields + VSwrite would use it: not a mutation of the Vdata */
             case 36: CALL("VSfdefine", 0, VSfdefine(vs_r, "zz", DFNT_INT32, 1)); break;
@@ -549,7 +549,13 @@ static void part_b(const char *path)
             /* ---- SD */
             case 41: { int32 s = (int32)CALL("SDcreate", 1, SDcreate(sd, "newsds", DFNT_INT32, 2, d2)); if (s != FAIL) newsds = s; } break;
             case 42: { int32 s_ = hk_chance(70) ? sds : newsds; int32 rk = 0, dm[H4_MAX_VAR_DIMS], nt = 0, na = 0; char nm[256]; if (SDgetinfo(s_, nm, &rk, dm, &nt, &na) != FAIL && rk > 0 && rk <= 4) { int32 st[4] = {0, 0, 0, 0}, ct[4] = {1, 1, 1, 1}; CALL("SDwritedata", 1, SDwritedata(s_, st, NULL, ct, ibuf)); } } break;
-            case 43: CALL("SDsetattr", 1, SDsetattr(hk_chance(50) ? sds : sd, "newattr", DFNT_INT32, 1, ibuf)); break;
+            case 43: { /* a new name, or the name of an attribute that exists (prep_rich: data set "scale" float32 x 1, file "title" char8 x 5) with the stored type and count:
+                          re-setting an existing attribute is a store request like any other */
+                       int k_ = (int)hk_range(0, 3);
+                       if (k_ == 0) CALL("SDsetattr", 1, SDsetattr(sds, "newattr", DFNT_INT32, 1, ibuf));
+                       else if (k_ == 1) CALL("SDsetattr", 1, SDsetattr(sd, "newattr", DFNT_INT32, 1, ibuf));
+                       else if (k_ == 2) { float32 f_ = 4.25f; CALL("SDsetattr", 1, SDsetattr(sds, "scale", DFNT_FLOAT32, 1, &f_)); }
+                       else CALL("SDsetattr", 1, SDsetattr(sd, "title", DFNT_CHAR8, 5, "HELLO")); } break;
             case 44: { int32 dim = (int32)CALL("SDgetdimid", 0, SDgetdimid(sds, 0)); if (dim != FAIL) { if (hk_chance(50)) CALL("SDsetdimname", 1, SDsetdimname(dim, "newdim")); else CALL("SDsetdimscale", 1, SDsetdimscale(dim, 1, DFNT_INT32, ibuf)); } } break;
             case 45: CALL("SDsetfillvalue", 1, SDsetfillvalue(sds, ibuf)); break;
             case 46: { comp_info ci; memset(&ci, 0, sizeof ci); ci.deflate.level = 1; CALL("SDsetcompress", 1, SDsetcompress(hk_chance(50) ? sds : newsds, COMP_CODE_DEFLATE, &ci)); } break;
@@ -565,7 +571,9 @@ static void part_b(const char *path)
             /* ---- GR */
             case 55: { int32 g = (int32)CALL("GRcreate", 1, GRcreate(gr, "newimg", 1, DFNT_UINT8, MFGR_INTERLACE_PIXEL, d2)); if (g != FAIL) newri = g; } break;
             case 56: { int32 one[2] = {1, 1}; CALL("GRwriteimage", 1, GRwriteimage(hk_chance(70) ? ri : newri, st2, NULL, one, buf)); } break;
-            case 57: CALL("GRsetattr", 1, GRsetattr(hk_chance(50) ? ri : gr, "newattr", DFNT_INT32, 1, ibuf)); break;
+            case 57: { int k_ = (int)hk_range(0, 3);   /* new names and existing ones (prep_rich: image "iatt", file "gatt", int32 x 1: small enough to stay in the attribute cache) */
+                       if (k_ < 2) CALL("GRsetattr", 1, GRsetattr(k_ ? ri : gr, "newattr", DFNT_INT32, 1, ibuf));
+                       else CALL("GRsetattr", 1, GRsetattr(k_ == 2 ? ri : gr, k_ == 2 ? "iatt" : "gatt", DFNT_INT32, 1, ibuf)); } break;
             case 58: { int32 pal = (int32)CALL("GRgetlutid", 0, GRgetlutid(ri, 0)); if (pal != FAIL) CALL("GRwritelut", 1, GRwritelut(pal, 3, DFNT_UINT8, MFGR_INTERLACE_PIXEL, 256, buf)); } break;
             case 59: CALL("GRsetexternalfile", 1, GRsetexternalfile(ri, sdext, 0)); break;
             case 60: { comp_info ci; memset(&ci, 0, sizeof ci); ci.deflate.level = 1; CALL("GRsetcompress", 1, GRsetcompress(hk_chance(50) ? ri : newri, COMP_CODE_DEFLATE, &ci)); } break;
